@@ -17,8 +17,9 @@ cleanup() { git -C /repo worktree remove --force $S/repo >/dev/null 2>&1; rm -rf
 if [ "$PATCH" != "/verif/seeded/NONE/patch.diff" ]; then
   git -C $S/repo apply $PATCH || { echo "RESULT $NAME rc=patch-does-not-apply"; cleanup; exit 2; }
 fi
-cp -r /verif/harness/src $S/harness/src
-sed "s#/repo/crates#$S/repo/crates#g" /verif/harness/Cargo.toml > $S/harness/Cargo.toml
+# the harness as committed (HEAD), not the working tree: edits in progress must not break an evaluation
+git -C /verif archive HEAD harness/src harness/Cargo.toml | tar -x -C $S
+sed -i "s#/repo/crates#$S/repo/crates#g" $S/harness/Cargo.toml
 cp /repo/Cargo.lock $S/harness/Cargo.lock
 cp /verif/known_findings.json $S/root/
 ( cd $S/harness && CARGO_TARGET_DIR=$S/target cargo build --release --offline >$S/build.log 2>&1 ) || { echo "RESULT $NAME rc=build"; tail -20 $S/build.log; cleanup; exit 2; }
